@@ -18,8 +18,10 @@ def run(ctx, res):
         "the first line of a file); R4 head/tail pair indices survive the splicing of child markers into the parent list "
         "(index-space rule: indices are produced relative to acc.len() and spliced children are rebased by a linear map that "
         "is checked symbolically); R5 the dedent ranges of all blocks are sorted by start before merge_ranges (blocks nest, so they do not arrive in order).  "
-        "Not decided: that every line is shifted by the same amount; correctness at nesting depth "
-        ">= 2 beyond R4; start-of-file treated as a line start for an indented first-line tag.")
+        "R6 every line of the block is visited: one step of the line walk goes on only inside the block, to the next line start found by a non-pausing scan, "
+        "and a line with a non-blank character gives up a range of one of four shapes built from the tag's own indentation and the common shift; R7 the ranges reach "
+        "the deletion (all removed positions, all block formatters, merge_ranges runs while new ranges remain).  Not decided: correctness at nesting depth "
+        ">= 2 beyond R4 / R5.")
     res.trusted += ["driver fact extraction and the abstract interpreter"]
     deletion.block_ranges(ctx, res, "C12.R1")
     deletion.scanner_tables(ctx, res, "C12.R1t")
